@@ -521,6 +521,64 @@ pub fn run_forged(ctx: &Ctx) {
                         emit(&mut out, &spec, &res);
                     }
                 }
+                // stateful forgeries: a multi-request run whose FIRST response is genuine and whose SECOND
+                // is forged — anything the client carries over from the first response (cached
+                // certificates, keys, roots) must not vouch for the second
+                {
+                    let honest_t = tmpl.clone();
+                    let mut attacker = tmpl.clone();
+                    attacker.lt = r.bytes(32);
+                    attacker.onl = r.bytes(32);
+                    let kinds: Vec<&str> = vec!["second:other-longterm-key", "second:attacker-dele-genuine-certsig", "second:attacker-srep-genuine-cert",
+                        "second:CERT.SIG-bitflip", "second:SREP.MIDP-bitflip", "second:SIG-bitflip", "second:DELE.PUBK-rerand", "second:midp-after-window", "second:honest"];
+                    for kind in kinds {
+                        if !out.mine() { out.skip(); continue; }
+                        let spec = RunSpec { ver, key: key.clone(), nreq: 2, json: false, kind: if kind == "second:honest" { "honest".into() } else { kind.to_string() } };
+                        let sb = r.next();
+                        let res = run_client(&spec, &mut |j, req| {
+                            if j == 0 { return honest_t.ask(&mut d, req); }
+                            let genuine = honest_t.ask(&mut d, req);
+                            let alien = attacker.ask(&mut d, req);
+                            let gf = tv_parse(&unwrap_wire(ver, &genuine)).unwrap();
+                            let mut af = tv_parse(&unwrap_wire(ver, &alien)).unwrap();
+                            let get = |f: &Fields, t: &[u8; 4]| f.iter().find(|(x, _)| x == t).unwrap().1.clone();
+                            let mut rr = Rng::new(sb);
+                            match kind {
+                                "second:other-longterm-key" => alien,
+                                "second:attacker-dele-genuine-certsig" => {
+                                    // attacker's DELE (own online key) under the GENUINE certificate signature
+                                    let gcert = tv_parse(&get(&gf, b"CERT")).unwrap();
+                                    let mut acert = tv_parse(&get(&af, b"CERT")).unwrap();
+                                    *get_mut(&mut acert, b"SIG\0").unwrap() = get(&gcert, b"SIG\0");
+                                    *get_mut(&mut af, b"CERT").unwrap() = tv_encode(&acert);
+                                    wrap_wire(ver, &tv_encode(&af))
+                                }
+                                "second:attacker-srep-genuine-cert" => {
+                                    // genuine CERT, but SREP+SIG made with the attacker's online key
+                                    *get_mut(&mut af, b"CERT").unwrap() = get(&gf, b"CERT");
+                                    wrap_wire(ver, &tv_encode(&af))
+                                }
+                                "second:midp-after-window" => {
+                                    let mut t = honest_t.clone();
+                                    t.maxt = t.midp - 1;
+                                    t.ask(&mut d, req)
+                                }
+                                "second:honest" => genuine,
+                                other => {
+                                    let region = &other[7..other.rfind('-').unwrap()];
+                                    let path = REGIONS.iter().find(|(n, _)| *n == region).unwrap().1;
+                                    let rerand = other.ends_with("rerand");
+                                    let body = unwrap_wire(ver, &genuine);
+                                    match edit_path(&body, path, &mut |v: &mut Vec<u8>| {
+                                        if v.is_empty() { return; }
+                                        if rerand { let l = v.len(); *v = rr.bytes(l); } else { let i = rr.below(v.len() as u64) as usize; v[i] ^= 1 << rr.below(8); }
+                                    }) { Some(b) => wrap_wire(ver, &b), None => genuine }
+                                }
+                            }
+                        });
+                        emit(&mut out, &spec, &res);
+                    }
+                }
                 // remember a genuine response for the next group's cross-run replay
                 {
                     let t = tmpl.clone();
